@@ -3,6 +3,7 @@
 // usage: verif_leaf <check> <lo> <hi> <seed> <tier>     -> last stdout line is one JSON object
 mod spec;
 mod checks;
+mod checks2;
 
 use std::panic;
 
@@ -36,9 +37,9 @@ fn main() {
   let a: Vec<String> = std::env::args().collect();
   if a.len() < 6 { eprintln!("usage: verif_leaf <check> <lo> <hi> <seed> <tier>"); std::process::exit(2); }
   let (check, lo, hi, seed, tier) = (a[1].as_str(), a[2].parse::<i64>().unwrap(), a[3].parse::<i64>().unwrap(), a[4].parse::<u64>().unwrap(), a[5].as_str());
-  panic::set_hook(Box::new(|_| {}));
+  if std::env::var("VERIF_LEAF_TRACE").is_err() { panic::set_hook(Box::new(|_| {})); }
   let mut out = Out { evaluations: 0, distinct: 0, failures: vec![], samples: vec![] };
-  let known = checks::dispatch(check, lo, hi, seed, tier == "thorough", &mut out);
+  let known = checks::dispatch(check, lo, hi, seed, tier == "thorough", &mut out) || checks2::dispatch2(check, lo, hi, seed, tier == "thorough", &mut out);
   if !known { eprintln!("unknown check {}", check); std::process::exit(2); }
   let fails: Vec<String> = out.failures.iter().map(|(k, d)| format!("{{\"key\":\"{}\",\"detail\":\"{}\"}}", esc(k), esc(d))).collect();
   let samples: Vec<String> = out.samples.iter().map(|s| format!("\"{}\"", esc(s))).collect();
